@@ -441,7 +441,11 @@ func cleanupFilePos(tfile *token.File, cl engine.Changelog, comments []*ast.Comm
 			continue
 		}
 
-		for i := tfile.Line(dr.Start); i < tfile.Line(dr.End); i++ {
+		// MergeLine wants the lines of the file as it is, not as //line
+		// directives in it renumber them.
+		startLine := tfile.PositionFor(dr.Start, false /* adjusted */).Line
+		endLine := tfile.PositionFor(dr.End, false /* adjusted */).Line
+		for i := startLine; i < endLine; i++ {
 			if i > 0 {
 				linesToDelete[i] = struct{}{}
 			}
